@@ -232,8 +232,24 @@ impl World {
         match name {
             "addone" => Some(Val::Exact([1.0, 0.0, 0.0, 0.0])),
             "noop" => Some(Val::Exact([0.0; 4])),
+            // the pipeline handlers, instantiated on their own (outside a pipeline), leave
+            // the coordinates alone; `stack` needs a sub-command; `pipeline` alone is an error
+            "push" | "pop" => Some(Val::Exact([0.0; 4])),
+            "stack" => {
+                if ["push", "pop", "roll", "unroll", "swap", "flip"].iter().any(|k| param(tokens, k).is_some() || tokens[1..].contains(k)) {
+                    Some(Val::Exact([0.0; 4]))
+                } else {
+                    None
+                }
+            }
             "helmert" => {
                 let g = |k: &str| -> f64 { param(tokens, k).and_then(|v| v.parse().ok()).unwrap_or(0.0) };
+                // with rates the translation depends on the tuple's epoch: a valid operator
+                // (given t_epoch) whose values are outside the constant-translation algebra
+                let dynamic = ["dx", "dy", "dz"].iter().any(|k| g(k) != 0.0);
+                if dynamic {
+                    return if param(tokens, "t_epoch").is_some() { Some(Val::Opaque) } else { None };
+                }
                 Some(Val::Exact([g("x"), g("y"), g("z"), 0.0]))
             }
             "gridshift" => {
